@@ -218,6 +218,10 @@ func newTunnelChannel(stream tunnelStreamClient, tunnelMetadata metadata.MD, ser
 	select {
 	case <-c.awaitSettings:
 	case <-ctx.Done():
+		// The settings exchange never completed, so the channel must not be
+		// used: an RPC started now would go out with whatever revision has
+		// (not) been negotiated so far, racing with the receive loop.
+		c.close(ctx.Err())
 	}
 
 	return c
